@@ -1,7 +1,8 @@
 (* C09, client half, as an executable predicate over Model C's trace: every envelope the
    client writes goes out under the encryption its SetEncryption calls have put in force; once
    the server has confirmed an encryption other than the one in force, the client switches to
-   it before it writes anything else; after a failed switch it writes nothing more. *)
+   it - and a successful switch leaves exactly the confirmed option in force - before it writes anything
+   else; after a failed switch it writes nothing more. *)
 From Coq Require Import List Bool Arith String.
 Import ListNotations.
 From Lime Require Import Hs.Types Hs.Client.
@@ -32,7 +33,9 @@ Definition estep (k : tkind) (tls_ok : bool) (s : est) (e : cev) : est :=
   | USetEnc e' ok =>
       {| w_cur := if ok then snd (set_enc k tls_ok (w_cur s) e') else w_cur s; w_dead := w_dead s || negb ok; w_chosen := w_chosen s;
          w_pending := None;
-         w_ok := w_ok s && match w_pending s with Some p => String.eqb p e' | None => false end |}
+         w_ok := w_ok s && match w_pending s with Some p => String.eqb p e' | None => false end &&
+                 (* a successful switch leaves exactly the confirmed option in force *)
+                 (if ok then String.eqb (snd (set_enc k tls_ok (w_cur s) e')) e' else true) |}
   | _ => s
   end.
 
